@@ -350,7 +350,15 @@ class Interp:
                 return a if a == b else U("ifexp")
             return self.eval(e.body if t else e.orelse, st)
         if isinstance(e, ast.Tuple):
-            vals = [self.eval(x, st) for x in e.elts]
+            vals = []
+            for x in e.elts:
+                if isinstance(x, ast.Starred):
+                    seq_t = self.iterate(self.eval(x.value, st), st)
+                    if seq_t is None:
+                        return U("starred")
+                    vals.extend(seq_t)  # (a, *rest): the known sequence is spliced
+                else:
+                    vals.append(self.eval(x, st))
             return K(tuple(vals))
         if isinstance(e, ast.List):
             vals = []
